@@ -4,6 +4,8 @@ package main
 // K<k>(<hex name>,<count>) in a case file builds one of them (run.go: buildHost).
 
 import (
+	"os"
+	"path/filepath"
 	"strconv"
 	"strings"
 	"time"
@@ -60,6 +62,24 @@ type hK6 struct { // two fields holding the SAME map, and two maps that were nev
 	Count    int
 }
 
+type hK8 struct { // a record with METHODS: nothing a script writes may call them
+	Name  string
+	Count int
+}
+
+func (h hK8) sideEffect(what string) {
+	methodCalls++
+	_ = os.WriteFile(filepath.Join(os.TempDir(), "evalfilter-verif-method-"+what), []byte(h.Name), 0o600)
+}
+
+// Discard, Touch, Secret and Size are exported, take no arguments and return one value.
+func (h hK8) Discard() bool  { h.sideEffect("discard"); return true }
+func (h hK8) Touch() string  { h.sideEffect("touch"); return "touched" }
+func (h hK8) Secret() string { h.sideEffect("secret"); return "s3cr3t" }
+func (h *hK8) Size() int     { h.sideEffect("size"); return 42 }
+
+var methodCalls int
+
 func buildStatic(s string) interface{} {
 	body := s[3 : len(s)-1]
 	parts := strings.SplitN(body, ",", 2)
@@ -80,6 +100,10 @@ func buildStatic(s string) interface{} {
 	case '6':
 		shared := map[string]interface{}{"city": name, "zip": n}
 		return hK6{name, shared, shared, nil, nil, n}
+	case '8':
+		return hK8{name, n}
+	case '9':
+		return &hK8{name, n}
 	case '7': // a document that uses one sub-map under two keys, and once more one level down
 		shared := map[string]interface{}{"city": name, "zip": n}
 		return map[string]interface{}{"Name": name, "Count": n, "x": shared, "y": shared, "z": map[string]interface{}{"inner": shared}}
